@@ -97,7 +97,7 @@ func mapStr(m map[ledger.LedgerKey]string) string {
 
 func checkC18(c *Ctx) {
 	c.rule = "generated operation sequences (SetFinality/GetFinality/DelFinality/CancelSetFinality/CancelDelFinality, Set/Get/Del/CancelSet/CancelDel, Read, IterateReadAllItems, Commit, ImmutableLedgerAt(v).Read/Iterate for every earlier version, close+reopen) over 2-6 keys on two real LevelDB-backed FinalityLedger instances; every return value is compared with a map model (committed map + consensus overlay + mempool overlay with tombstones + version history) and the two instances must return equal root hashes and versions; distinct = distinct operation sequences that contained at least one commit"
-	c.assumptions = []string{"CancelDel is only exercised while exactly one delete of the key is outstanding", "after a consensus delete of a key the mempool overlay's view of that key is not asserted until the next commit (the implementation propagates the delete; the property does not say)"}
+	c.assumptions = []string{"each ledger is driven by one goroutine at a time, as in the node (application calls never overlap in the node)", "CancelDel is only exercised while exactly one delete of the key is outstanding", "after a consensus delete of a key the mempool overlay's view of that key is not asserted until the next commit (the implementation propagates the delete; the property does not say)"}
 	n := c.N(300, 12000)
 	c.Parallel(n, 0, func(i int) {
 		rng := c.Rng("c18", i)
